@@ -116,6 +116,9 @@ let run_run stepf =
     if at = 0 then cs.cpu <- { cs.cpu with cPU_Interrupt = Some { interrupt_Type = zi kind; interrupt_Data = data } }) cs.sched;
   let fired = ref false in
   for r = 0 to nruns - 1 do
+    (* in run mode a scheduled request with at = r >= 1 is raised between Run number r-1 and Run number r *)
+    if r > 0 then Array.iter (fun (at, kind, data) ->
+      if at = r then cs.cpu <- { cs.cpu with cPU_Interrupt = Some { interrupt_Type = zi kind; interrupt_Data = data } }) cs.sched;
     let code =
       if cancelmode = 1 then 2 (* the real code may run any whole number of Steps first; handled by runto *)
       else begin
